@@ -2,6 +2,11 @@
 
 #define NODES_PER_BLOCK         256
 
+/* How deep the functions that walk a parse tree recursively (code generation,
+ * the optimizer, insert_pop_value()) follow it. No program that fits the 64k
+ * of code comes near: every level of a tree costs at least one byte of code. */
+#define MAX_TREE_DEPTH          10000
+
 enum node_type {
     NODE_RETURN, NODE_TWO_VALUES, NODE_OPCODE, NODE_OPCODE_1, NODE_OPCODE_2,
     NODE_UNARY_OP, NODE_UNARY_OP_1, NODE_BINARY_OP, NODE_BINARY_OP_1,
